@@ -643,10 +643,20 @@ def run_apstats(s, o):
         num = float(np.sum(np.abs(vals)) + lb_ * vals.size)
         den = abs(float(np.asarray(m)[0, 0]))
         cond.append(np.inf if not np.isfinite(den) or den == 0 else num / den)
+    # tie band of the strict `det(covariance) < 0 -> NaN` test for collinear pixel centres (same as SourceCatalog):
+    # det = 0 exactly, its computed sign is rounding; the moment-derived outputs of such rows are not compared
+    mcen = np.asarray(split_unit(out['moments_central'])[0], float).reshape(-1, 4, 4)
+    with np.errstate(all='ignore'):
+        mn = mcen / mcen[:, 0:1, 0:1]
+        det = mn[:, 0, 2] * mn[:, 2, 0] - mn[:, 1, 1] ** 2
+        scale = np.abs(mn[:, 0, 2] * mn[:, 2, 0]) + mn[:, 1, 1] ** 2
+        tie = np.isfinite(det) & (scale > 0) & (np.abs(det) <= 1e-9 * scale)
+    cond = [np.inf if t else c_ for c_, t in zip(cond, tie)]
     sm = np.asarray(split_unit(out['sum'])[0], float).ravel()
     ca = np.asarray(split_unit(out['center_aper_area'])[0], float).ravel()
     out['_notes'] = {'rows': len(sm), 'rows_nan_sum(no unmasked pixel)': int(np.isnan(sm).sum()),
-                     'rows_center_area<=1(single pixel or none)': int((ca <= 1).sum())}
+                     'rows_center_area<=1(single pixel or none)': int((ca <= 1).sum()),
+                     'rows_collinear_pixels(det(cov)=0 tie, moments skipped)': int(tie.sum())}
     return out, rows, np.array(cond)
 
 
@@ -1623,6 +1633,80 @@ def run_psf(s, o):
 
 
 # ----------------------------------------------------------------------
+# 15. statistics layer on a pedestal image (representation only)
+# ----------------------------------------------------------------------
+class _StatSpec(dict):
+    def __missing__(self, k):
+        if k.startswith('b2d_') and (k.endswith('background') or k.endswith('background_rms')):
+            return K('frame', per_row=False, unit='data')
+        return K('free', per_row=False)
+
+
+SPEC_STATS = _StatSpec()
+_LOC = ['MeanBackground', 'MedianBackground', 'ModeEstimatorBackground', 'MMMBackground', 'SExtractorBackground',
+        'BiweightLocationBackground']
+_RMS = ['StdBackgroundRMS', 'MADStdBackgroundRMS', 'BiweightScaleBackgroundRMS']
+
+
+def clip_gap_ok(data, mask, sigma, maxiters, gap):
+    """True if no clipping bound of any iteration of SigmaClip(sigma, maxiters) on `data` (float64) comes within
+    `gap` of a data value: only then is the clipped pixel set immune to a last-digit change of the bounds. Uses
+    astropy SigmaClip (trusted base), never photutils."""
+    from astropy.stats import SigmaClip
+    d = np.asarray(data, float)
+    vals = np.unique(d[~mask] if mask is not None else d)
+    for it in range(1, maxiters + 1):
+        _, lo, hi = SigmaClip(sigma=sigma, maxiters=it)(np.ma.MaskedArray(d, mask), return_bounds=True, masked=True)
+        for b in (float(lo), float(hi)):
+            if np.min(np.abs(vals - b)) <= gap:
+                return False
+    return True
+
+
+def prep_stats(rng, scene):
+    return dict(clip=_opt(rng, None, 3.0, 3.0), maxiters=int(_opt(rng, 2, 3, 5)), axis=_opt(rng, None, None, 0, 1),
+                nsigma=float(rng.uniform(1.5, 4.0)), use_mask=_use(rng, 0.4),
+                boxes=[Pair((int(rng.integers(12, 24)), int(rng.integers(12, 24)))),
+                       Pair((int(rng.integers(40, 80)), int(rng.integers(40, 80)))), 'whole'],
+                b2d=_use(rng, 0.6))
+
+
+def run_stats(s, o):
+    import photutils.background as pb
+    from astropy.stats import SigmaClip
+    from photutils.segmentation import detect_threshold
+    data = s['pdata']
+    mask = s['pmask'] if o['use_mask'] else None
+    sc = None if o['clip'] is None else SigmaClip(sigma=o['clip'], maxiters=o['maxiters'])
+    out = {}
+    # detect_threshold with background=None, error=None: sigma-clipped mean / std of the whole image
+    kw = {'sigma_clip': sc if sc is not None else SigmaClip(sigma=1e9, maxiters=1)}
+    out['detect_threshold'] = np.asarray(split_unit(detect_threshold(data, o['nsigma'], mask=mask, **kw))[0])[0, 0]
+    # estimator classes called directly (masked pixels as a MaskedArray when a mask is used and the input is plain)
+    d_in = data
+    if mask is not None and o.get('est_mask', True):
+        # the estimator API takes masked pixels only as a MaskedArray (not possible for Quantity / integer input:
+        # the check decides `est_mask` per variant, identically for the baseline and the variant call)
+        d_in = np.ma.MaskedArray(np.ma.getdata(data), mask=mask | np.ma.getmaskarray(data))
+    for name in _LOC + _RMS:
+        est = getattr(pb, name)(sigma_clip=sc)
+        out[name] = _guard(lambda est=est: est(d_in, axis=o['axis']), name)
+    if o['b2d']:
+        for i, box in enumerate(o['boxes']):
+            bs = tuple(s['pmask'].shape) if box == 'whole' else tuple(box)
+            b = pb.Background2D(data, bs, mask=mask, sigma_clip=sc, filter_size=1 if box == 'whole' else 3,
+                                bkg_estimator=pb.MeanBackground(), bkgrms_estimator=pb.StdBackgroundRMS())
+            out[f'b2d_{i}_background_median'] = b.background_median
+            out[f'b2d_{i}_background_rms_median'] = b.background_rms_median
+            out[f'b2d_{i}_background_mesh'] = b.background_mesh
+            out[f'b2d_{i}_background_rms_mesh'] = b.background_rms_mesh
+            if i == 0:
+                out['b2d_0_background'] = b.background
+                out['b2d_0_background_rms'] = b.background_rms
+    return out, None
+
+
+# ----------------------------------------------------------------------
 # the table
 # ----------------------------------------------------------------------
 TR, TP, RP = 'translate', 'transpose', 'repr'
@@ -1671,6 +1755,12 @@ TABLE = [
        must_reach=['photutils.background.background_2d:Background2D.__init__'], arrays=('bdata',), nddata='data'),
     EP('detect_threshold', prep_thresh, run_thresh, SPEC_THRESH, {RP},
        must_reach=['photutils.segmentation.detect:detect_threshold'], arrays=('bdata', 'bkg', 'error')),
+    EP('statistics', prep_stats, run_stats, SPEC_STATS, {RP},
+       must_reach=['photutils.background.core:StdBackgroundRMS.calc_background_rms',
+                   'photutils.background.core:MeanBackground.calc_background',
+                   'photutils.background.core:MMMBackground.calc_background',
+                   'photutils.background.core:BiweightScaleBackgroundRMS.calc_background_rms'],
+       arrays=('pdata',), nddata=False, flavour='pedestal'),
     EP('calc_total_error', prep_toterr, run_toterr, SPEC_TOTERR, {RP},
        must_reach=['photutils.utils.errors:calc_total_error'], arrays=('bdata', 'error')),
 ]
